@@ -725,6 +725,7 @@ pub fn finish(ctx: &Ctx, report: &Report, meta: &PropertyMeta, started: Instant)
 /// Generator health gate: class `c` must make up at least `min_permille`/1000 of `of`.
 pub fn health(report: &mut Report, class: &str, of: u64, min_permille: u64) {
     let n = report.classes.get(class).copied().unwrap_or(0);
+    let of = of.saturating_sub(report.measures.get("fuzz_executions_unlabelled").copied().unwrap_or(0).max(0) as u64);
     if of > 0 && n * 1000 < of * min_permille {
         report.infra_errors.push(format!(
             "generator health: class '{}' is {} of {} cases (< {}‰)",
